@@ -3,6 +3,7 @@ package c09
 
 import (
 	"fmt"
+	"strings"
 	"testing"
 
 	"git.metabarcoding.org/obitools/obitools4/obitools4/pkg/obialign"
@@ -23,6 +24,7 @@ func TestMain(m *testing.M) {
 		evid.Spec{Name: "TestPropD1Random", Kind: "rapid", Quick: 64000, Thorough: 800000, QuickShards: 8, ThoroughShards: 16},
 		evid.Spec{Name: "FuzzLCS", Kind: "fuzz", Thorough: 90, ThoroughOnly: true, QuickShards: 1, ThoroughShards: 1},
 		evid.Spec{Name: "TestPropConcurrentCalls", Kind: "rapid", Quick: 1600, Thorough: 40000, QuickShards: 8, ThoroughShards: 16},
+		evid.Spec{Name: "TestPropVeryLong", Kind: "rapid", Quick: 160, Thorough: 4000, QuickShards: 8, ThoroughShards: 16},
 		evid.Spec{Name: "TestPropBufferReuse", Kind: "rapid", Quick: 4000, Thorough: 100000, QuickShards: 4, ThoroughShards: 16},
 	)
 	evid.Note("rule", "exhaustive: every ordered pair of strings over {a,c,g,t} up to length 4 (quick) / 5 (thorough), empty string included, x bounds -1..3, for FastLCSScore, FastLCSEGFScore and D1Or0; random: pairs up to 300 nt with IUPAC codes built by mutation so that the true number of differences lies within +-2 of the bound; buffer-reuse: generated call sequences sharing one scratch buffer; concurrent: 2..8 goroutines repeating a generated call list with no buffer / a buffer of their own at the same time, each answer compared with the answer obtained alone. Oracle: independent full-matrix DP (LCS with shortest-alignment tie-break, IUPAC table written from the documentation; Levenshtein). Non-trivial = the two lengths differ and the true difference is within +-1 of the bound (lcs checks) / edit distance 1 or 2 (one-difference checks). Distinct = hash of (check, a, b, bound).")
@@ -288,6 +290,9 @@ func genPair(t *rapid.T, maxLen int) lcsCase {
 	n := gen.Len(t, "len", 0, maxLen, 1, 2, 3, 4, 64)
 	alphabet := gen.ACGT
 	a := gen.SeqMix(t, "a", n, alphabet, gen.IUPAC, rapid.SampledFrom([]int{0, 0, 8, 3}).Draw(t, "iupac_rate"))
+	if rapid.IntRange(0, 7).Draw(t, "rna") == 0 {
+		a = strings.ReplaceAll(a, "t", "u") // RNA spelling (u is t in the documented code table)
+	}
 	center := bound
 	if center < 0 {
 		center = rapid.IntRange(0, 8).Draw(t, "edits_nobound")
@@ -483,6 +488,108 @@ func TestPropConcurrentCalls(t *testing.T) {
 		evid.Eval("lcs_concurrent", evid.Hash(fmt.Sprint(c)), c.Workers >= 4, nil, "concurrent_callers")
 		if err := checkConcurrent(c); err != nil {
 			evid.Fail(rt, "lcs_concurrent", c, err)
+		}
+	})
+}
+
+// ------------------------------------------------------------------ very long sequences
+
+// Sequences of tens of kilobases (whole mitochondrial genomes) that differ by a
+// few edits: alignment lengths beyond 32767 columns.  The full-matrix oracle is
+// out of reach there; a banded DP is exact because two sequences k edits apart
+// have every alignment of score >= n-k within 2k of the main diagonal.  The
+// kernel is called with a bound (an unbounded call costs ~8*L^2 cell updates).
+type longLCSCase struct {
+	Unit   string
+	N      int
+	Edits  []gen.Edit
+	Bound  int
+	Swap   bool
+	Shared bool // one scratch buffer for the two calls
+}
+
+func init() { evid.Reg("lcs_very_long", checkVeryLong) }
+
+func (c longLCSCase) pair() (string, string) {
+	a := []byte(strings.Repeat(c.Unit, c.N/len(c.Unit)+1)[:c.N])
+	// break the periodicity so that shifted alignments do not tie with the true one
+	x := uint32(len(c.Unit))*2654435761 + uint32(c.N)
+	for i := 0; i < len(a); i += 7 {
+		x = x*1664525 + 1013904223
+		a[i] = "acgt"[(x>>24)&3]
+	}
+	b := append([]byte{}, a...)
+	for _, e := range c.Edits {
+		p := e.Pos % max(1, len(b))
+		switch e.Kind {
+		case 's':
+			b[p] = "acgt"[(strings.IndexByte("acgt", b[p])+1+int(e.Sym)%3)%4]
+		case 'i':
+			b = append(b[:p], append([]byte{"acgt"[int(e.Sym)%4]}, b[p:]...)...)
+		case 'd':
+			b = append(b[:p], b[p+1:]...)
+		}
+	}
+	if c.Swap {
+		return string(b), string(a)
+	}
+	return string(a), string(b)
+}
+
+func checkVeryLong(c longLCSCase) error {
+	if len(c.Unit) == 0 || c.N < 1 {
+		return nil
+	}
+	a, b := c.pair()
+	k := len(c.Edits)
+	L, AL := ref.LCSBanded(a, b, 2*k+4, ref.IUPACCompatible)
+	if L < 0 {
+		return fmt.Errorf("harness: banded oracle not applicable")
+	}
+	var buf []uint64
+	var pbuf *[]uint64
+	if c.Shared {
+		pbuf = &buf
+	}
+	var s, l int
+	out := fatal.Run(func() { s, l = obialign.FastLCSScore(bs(a), bs(b), c.Bound, pbuf) })
+	if !out.Completed {
+		return fmt.Errorf("FastLCSScore on two sequences of %d/%d nt (%d edits apart, bound %d) did not return: %v", len(a), len(b), k, c.Bound, out)
+	}
+	diff := AL - L
+	if diff <= c.Bound {
+		if s != L || l != AL {
+			return fmt.Errorf("FastLCSScore on two sequences of %d/%d nt, %d edits apart, bound %d = (%d,%d); reference LCS=%d, shortest alignment=%d (differences %d are within the bound)", len(a), len(b), k, c.Bound, s, l, L, AL, diff)
+		}
+		return nil
+	}
+	if s == -1 && l == -1 {
+		return nil
+	}
+	if s < 0 || l < s || l-s <= c.Bound {
+		return fmt.Errorf("FastLCSScore on two sequences of %d/%d nt, bound %d = (%d,%d): a within-bound answer although the true difference is %d", len(a), len(b), c.Bound, s, l, diff)
+	}
+	return nil
+}
+
+func TestPropVeryLong(t *testing.T) {
+	rapid.Check(t, func(rt *rapid.T) {
+		var c longLCSCase
+		c.Unit = gen.Seq(rt, "unit", rapid.SampledFrom([]int{97, 251, 1009}).Draw(rt, "unit_len"), gen.ACGT)
+		c.N = rapid.SampledFrom([]int{8000, 16383, 16384, 20000, 32767, 32768, 40000, 60000}).Draw(rt, "n")
+		k := rapid.IntRange(0, 8).Draw(rt, "edits")
+		for i := 0; i < k; i++ {
+			c.Edits = append(c.Edits, gen.Edit{Kind: "sid"[rapid.IntRange(0, 2).Draw(rt, "kind")], Pos: rapid.IntRange(0, c.N-1).Draw(rt, "pos"), Sym: byte(rapid.IntRange(0, 3).Draw(rt, "sym"))})
+		}
+		c.Bound = k + rapid.IntRange(-2, 4).Draw(rt, "bound_delta")
+		if c.Bound < 0 {
+			c.Bound = 0
+		}
+		c.Swap = rapid.Bool().Draw(rt, "swap")
+		c.Shared = rapid.Bool().Draw(rt, "shared")
+		evid.Eval("lcs_very_long", evid.Hash(fmt.Sprintf("%+v", c)), 2*c.N >= 32768, c, fmt.Sprintf("very_long:n=%d", c.N))
+		if err := checkVeryLong(c); err != nil {
+			evid.Fail(rt, "lcs_very_long", c, err)
 		}
 	})
 }
